@@ -9,6 +9,7 @@ chi-square, z-tests on means and variances, Kolmogorov-Smirnov; alpha=1e-10 + co
 """
 
 import itertools
+import json
 import time
 
 import numpy as np
@@ -92,11 +93,33 @@ def counts_of(samples):
     return c
 
 
-def judge_discrete(ctx, pq, doc, law, kind, cls, shots, seed, arity, mech_prefix):
-    """law: {outcome tuple: probability}. Runs the sampler, checks arity/support, chi-square with confirmation."""
+def judge_discrete(ctx, pq, doc, law, kind, cls, shots, seed, arity, mech_prefix, base_prefix=None):
+    """law: {outcome tuple: probability}. Runs the sampler, checks arity/support, chi-square with confirmation.
+    base_prefix: set when mech_prefix is the key of the known hbar-normalisation finding; the key is then only used when the
+    same program at hbar = 2 *does* follow the law (symptom predicate: 'right at hbar = 2 only'), see _hbar_key."""
     from vf import stats as S
 
     case = {"doc": doc, "seed": int(seed), "shots": shots, "kind": kind}
+
+    def _hbar_key(default_suffix):
+        """Mechanism key for a failed comparison of a case classified under the known hbar-normalisation finding."""
+        if not mech_prefix.endswith("hbar-normalisation"):
+            return "%s-%s" % (mech_prefix, default_suffix)
+        if base_prefix is None:
+            return mech_prefix
+        doc2 = json.loads(json.dumps(doc))
+        doc2["config"]["hbar"] = 2.0
+        ctx.c["hbar2_control_runs"] = ctx.c.get("hbar2_control_runs", 0) + 1
+        try:
+            s3 = run_samples(pq, doc2, seed + 104729, shots * 4)
+            r3 = S.chi_square(counts_of(s3), law, len(s3))
+            right_at_2 = (not r3["support_violations"]) and r3["p_value"] >= S.ALPHA_CONFIRM
+        except Exception:
+            right_at_2 = False
+        if right_at_2:
+            return mech_prefix
+        case["hbar2_control"] = "the same program at hbar = 2 does not follow the law either"
+        return "%s-%s" % (base_prefix, default_suffix)
     ctx.evals += 1
     try:
         samples = run_samples(pq, doc, seed, shots)
@@ -118,7 +141,7 @@ def judge_discrete(ctx, pq, doc, law, kind, cls, shots, seed, arity, mech_prefix
     ctx.c["support_checks"] += 1
     if res["support_violations"]:
         o = res["support_violations"][0]
-        ctx.viol(mech_prefix if mech_prefix.endswith("hbar-normalisation") else "%s-outcome-outside-support" % mech_prefix, "%s: outcome %s was sampled %d time(s) but has exact probability %.3e" % (kind, o, cnt[o], law.get(o, 0.0)), case)
+        ctx.viol(_hbar_key("outcome-outside-support"), "%s: outcome %s was sampled %d time(s) but has exact probability %.3e" % (kind, o, cnt[o], law.get(o, 0.0)), case)
         return
     if len([p for p in law.values() if p > 1e-9]) < 2:
         ctx.classes.add(cls + "|deterministic")
@@ -142,7 +165,7 @@ def judge_discrete(ctx, pq, doc, law, kind, cls, shots, seed, arity, mech_prefix
         r2 = S.chi_square(counts_of(s2), law, len(s2))
         if r2["p_value"] < S.ALPHA_CONFIRM:
             worst = max(law, key=lambda o: abs(counts_of(s2).get(o, 0) / len(s2) - law[o]))
-            ctx.viol(mech_prefix if mech_prefix.endswith("hbar-normalisation") else "%s-law-differs" % mech_prefix,
+            ctx.viol(_hbar_key("law-differs"),
                      "%s: empirical law differs from the exact one (chi-square p=%.1e with %d shots, p=%.1e in the confirmation run with %d; TV %.3f; "
                      "e.g. outcome %s: exact %.4f, observed %.4f)" % (kind, res["p_value"], shots, r2["p_value"], len(s2), r2["tv"], worst, law[worst],
                                                                       counts_of(s2).get(worst, 0) / len(s2)), case)
@@ -318,6 +341,9 @@ def gaussian_state_doc(rng, d, hbar, small=True):
             ins.append({"t": "Displacement", "m": [m], "p": {"r": float(rng.uniform(0.0, 0.5 if small else 1.0)), "phi": G.angle(rng)}})
     for _ in range(int(rng.integers(1, 3))):
         ins.append(G.gate(rng, str(rng.choice(["Interferometer", "Beamsplitter"])), d))
+    if rng.random() < 0.4:
+        # mixed states: loss on one mode (the samplers draw a random pure-state mean per shot then)
+        ins.append({"t": "Attenuator", "m": [int(rng.integers(0, d))], "p": {"theta": float(rng.uniform(0.3, 0.9))}})
     return [i for i in ins if i is not None]
 
 
@@ -355,11 +381,14 @@ def wl_gaussian_discrete(ctx, pq, rng, shots):
     doc = {"sim": "gaussian", "d": d, "config": cfg, "ins": ins + [{"t": mt, "m": modes, "p": {}}], "shots": shots}
     cls = "gaussian|%s|d%d|k%d|h%s|%s" % (kind, d, k, hbar, G.mode_pattern(modes))
     prefix = "gaussian-" + kind
+    base = None
     if kind in ("pnm", "threshold") and hbar != 2.0:
         # known defect: the particle-number sampler (also used for threshold detection without the
-        # torontonian) normalises mean/covariance as if hbar were 2
-        prefix = "gaussian-particle-number-sampling-hbar-normalisation"
-    judge_discrete(ctx, pq, doc, law, "gaussian/" + kind, cls, shots if kind != "pnm" else min(shots, 1500), int(rng.integers(1, 2 ** 31)), k, prefix)
+        # torontonian) normalises mean/covariance as if hbar were 2; the key is used only when the same program
+        # follows the law at hbar = 2 (otherwise it is a different violation and reported as such)
+        prefix, base = "gaussian-particle-number-sampling-hbar-normalisation", prefix
+    judge_discrete(ctx, pq, doc, law, "gaussian/" + kind, cls, shots if kind != "pnm" else min(shots, 1500), int(rng.integers(1, 2 ** 31)), k, prefix,
+                   base_prefix=base)
 
 
 def wl_gaussian_dyne(ctx, pq, rng, shots):
@@ -573,11 +602,44 @@ def wl_fock_homodyne(ctx, pq, rng, shots):
             z2, pm2 = S.mean_test(s2[:, j], mu, var)
             if p2 < S.ALPHA_CONFIRM or pm2 < S.ALPHA_CONFIRM:
                 mech = "purefock-homodyne-marginal-law:first-mode" if j == 0 else "purefock-homodyne-marginal-law:later-mode"
+                if j > 0 and _explained_by_unnormalised_hermite_terms(pq, doc, seed + 7919, shots * 4, j, cdf, mu, var):
+                    ctx.c["hermite_terms_attributions"] = ctx.c.get("hermite_terms_attributions", 0) + 1
+                    mech = "purefock-homodyne-conditional-hermite-terms-unnormalised"
                 ctx.viol(mech, "homodyne marginal of measured mode #%d (mode %d): KS D=%.3f p=%.1e (confirmation D=%.3f p=%.1e), sample mean %.3f vs exact %.3f" % (
                     j, m, dstat, pval, d2, p2, s2[:, j].mean(), mu), case)
 
 
-WORKLOADS = [("passive", wl_passive, 4), ("passive-bunched-distinguishable", wl_passive_bunched_distinguishable, 2), ("gaussian-discrete", wl_gaussian_discrete, 3), ("gaussian-dyne", wl_gaussian_dyne, 3), ("fock", wl_fock, 3),
+def _explained_by_unnormalised_hermite_terms(pq, doc, seed, shots, j, cdf, mu, var):
+    """Symptom predicate of one known defect: the multi-mode Fock homodyne sampler conditions the next mode on the
+    positions already drawn with the bare Hermite values H_n(x) instead of H_n(x) / sqrt(2^n n!). The sampler is re-run
+    (same seed) with the normalised terms installed in this harness process only; the deviation is attributed to the defect
+    when that run follows the exact marginal law."""
+    from vf import stats as S
+    from piquasso._simulators.fock.pure.simulation_steps import homodyne as H
+
+    original = H.get_hermite_terms
+
+    def corrected(hermites, positions, space, current_d, cutoff):
+        terms = np.asarray(original(hermites, positions, space, current_d, cutoff), dtype=float).copy()
+        occ = np.asarray(space)[:, : current_d - 1].astype(float)
+        from scipy.special import gammaln
+
+        lognorm = 0.5 * (occ * np.log(2.0) + gammaln(occ + 1.0)).sum(axis=1)
+        return terms / np.exp(lognorm)
+
+    H.get_hermite_terms = corrected
+    try:
+        s3 = np.array(run_samples(pq, doc, seed, shots), dtype=float)
+    except Exception:
+        return False
+    finally:
+        H.get_hermite_terms = original
+    d3, p3 = S.ks_test(s3[:, j], cdf)
+    z3, pm3 = S.mean_test(s3[:, j], mu, var)
+    return bool(p3 >= S.ALPHA_CONFIRM and pm3 >= S.ALPHA_CONFIRM)
+
+
+WORKLOADS = [("passive", wl_passive, 4), ("passive-bunched-distinguishable", wl_passive_bunched_distinguishable, 2), ("gaussian-discrete", wl_gaussian_discrete, 5), ("gaussian-dyne", wl_gaussian_dyne, 3), ("fock", wl_fock, 3),
              ("fock-homodyne", wl_fock_homodyne, 2)]
 
 
@@ -586,7 +648,7 @@ def plan(tier, seed):
     idx = 0
     for name, _, nshards in WORKLOADS:
         for j in range(nshards):
-            specs.append({"name": "%s-%d" % (name, j), "workload": name, "shard": idx, "cases": 6 if tier == "quick" else 40,
+            specs.append({"name": "%s-%d" % (name, j), "workload": name, "shard": idx, "cases": (8 if name == "gaussian-discrete" else 6) if tier == "quick" else 40,
                           "shots": 2500 if tier == "quick" else 40000,
                           "env": {"OPENBLAS_NUM_THREADS": "1", "OMP_NUM_THREADS": "2", "NUMBA_NUM_THREADS": "2"}})
             idx += 1
